@@ -58,7 +58,7 @@ SourceOk(c) == c \in {"none", "subdir", "package+subdir", "href"}
 \* | item missing a required key | non-dict item | list with one invalid item among valid ones
 \* | a Mapping that is not a dict (the statement: "a non-dict ... item ... is rejected")
 ItemClasses == {"none", "one", "list", "empty-list", "missing-key", "empty-item", "non-dict", "list-with-missing", "list-with-non-dict",
-                "mapping-item"}
+                "mapping-item", "other-attrs-only"}
 ItemsOk(c) == c \in {"none", "one", "list", "empty-list"}
 MetaClasses == ItemClasses \cup {"missing-content"}
 DefOk(d) == SourceOk(d.source) /\ ItemsOk(d.script) /\ ItemsOk(d.stylesheet) /\ ItemsOk(d.meta)
